@@ -43,6 +43,15 @@ def model(c, runs):
             dict(name="pinned _send_eof without notify: a writer parked at window 0 sleeps on after shutdown_write from another thread", module="Channel",
                  expect="HangFree",
                  cfg=cfg_text(constants=dict(small, UsersB="@{}", OpsA={"sendall", "shutdown_write"}, Mut="no_eof_notify"), invariants=MINVS)),
+            dict(name="sensitivity: set_closed_no_notify (transport loss: _unlink -> _set_closed wakes nobody, the parked sendall sleeps on)", module="Channel",
+                 expect="HangFree",
+                 cfg=cfg_text(constants=dict(small, UsersA={"a1"}, UsersB="@{}", OpsA={"sendall", "sendall_err"}, Loss=True, Mut="set_closed_no_notify"),
+                              invariants=MINVS)),
+            dict(name="sensitivity: adjust_notify_one (_window_adjust wakes one of two parked writers)", module="Channel", expect="HangFree",
+                 cfg=cfg_text(constants=dict(small, OpsA={"sendall", "sendall_err"}, OpsB={"recv"}, ReadSizes={4}, Mut="adjust_notify_one"),
+                              invariants=MINVS)),
+            dict(name="two writers parked at window 0, one adjust for both; transport loss while parked", module="Channel",
+                 cfg=cfg_text(constants=dict(small, OpsA={"sendall", "sendall_err"}, OpsB={"recv"}, ReadSizes={4}, Loss=True), invariants=MINVS)),
             dict(name="liveness: every sendall ends (reader keeps reading; shutdown_write from a second thread)", module="Channel",
                  cfg=cfg_text(constants=dict(BASE, UsersB="@{}", Daemons={"dB_out"}, OpsA={"sendall", "shutdown_write"}, SendN=3), invariants=[], **LIVE)),
             dict(name="simulate (spec -> code)", module="Channel_Gen", simulate=True, expect="behaviours",
@@ -101,6 +110,14 @@ def model(c, runs):
 
 
 FIXED = [
+    # transport loss (_unlink) while a blocking sendall / sendall_stderr is PARKED at window 0 - both streams, both roles
+    {"threads": {"a1": [("sendall", 40000)]}, "lost": ["A"], "lost_when": {"A": "zero"}},
+    {"threads": {"a1": [("sendall_err", 40000)]}, "lost": ["A"], "lost_when": {"A": "zero"}},
+    {"threads": {"b1": [("sendall", 40000)]}, "lost": ["B"], "lost_when": {"B": "zero"}},
+    {"threads": {"b1": [("sendall_err", 33000)], "a1": [("recv", 10)]}, "lost": ["B"], "lost_when": {"B": "zero"}},
+    # two writers parked at window 0; ONE window adjustment reopens enough for both
+    {"threads": {"a1": [("sendall", 32868)], "a2": [("sendall_err", 100)], "b1": [("recv", 65536)]}},
+    {"threads": {"a1": [("send", 32768), ("send", 50)], "a2": [("send", 50)], "a3": [("send_err", 50)], "b1": [("recv", 65536)]}, "pktA": 65536},
     # peers advertising a maximum packet size below the 4096-byte floor
     {"threads": {"a1": [("sendall", 200)]}, "pkt": 32},
     {"threads": {"a1": [("sendall_err", 150)]}, "pkt": 1},
@@ -195,6 +212,9 @@ def run(c):
                 "threads": p["threads"]}
         if "lost" in p:
             prog["lost"] = p["lost"]
+            prog["lost_when"] = p.get("lost_when", {})
+        if "pktA" in p:
+            prog["par"]["pkt"]["B"] = p["pktA"]        # what B allows A to send in one message
         progs.append(prog)
     progs += programs(rnd, 8 if c.quick else 150)
     deadline = time.time() + (120 if c.quick else 600)   # safety net only: the schedule counts bound the exploration, so the result does not depend on machine load
